@@ -477,6 +477,88 @@ def check_poly(i, tier, twin=False):
     return H.finish(res, stats, q)
 
 
+def check_euclid_poly(tier):
+    """extended_euclidean on pairs of integer polynomials in one variable: Bezout identity and divisibility, decided at a
+    symbolic point; every call runs under an alarm (the routine has no termination argument over Z[x])"""
+    import signal
+    from pymbolic.algorithm import extended_euclidean
+    from pymbolic.mapper.evaluator import EvaluationMapper
+    from pymbolic.polynomial import Polynomial
+    sym.set_family("int")
+    res = ItemResult(item="extended_euclidean on polynomial pairs", sample={"family": "integer polynomials of degree <= 3"})
+    X = p.Variable("X")
+    q = Query(timeout_ms=20000)
+
+    def P(*c):
+        return Polynomial(X, tuple((i, ci) for i, ci in enumerate(c) if ci != 0))
+    lin = [P(-1, 1), P(1, 1), P(0, 1), P(2, 1), P(-2, 2)]
+    pairs = []
+    for a_ in lin:
+        for b_ in lin:
+            pairs += [(a_ * b_, a_), (a_, a_ * b_), (a_ * b_, b_ * a_)]
+            for c_ in lin[:3]:
+                pairs.append((a_ * b_, a_ * c_))
+    pairs += [(P(1, 0, 1), P(-1, 1)), (P(2, 3, 1), P(-2, 1, 1)), (P(-1, 0, 1), P(-2, 2)), (P(1, 1), P(1, 1)), (P(3), P(0, 1)),
+              (P(0, 0, 0, 1), P(0, 1)), (P(-1, 0, 0, 1), P(-1, 1)), (P(1, 2, 1), P(1, 2, 1))]
+    xs = sym.var("X", "int")[0]
+
+    def value(poly):
+        return EvaluationMapper({"X": xs})(poly) if isinstance(poly, p.Expression) else poly
+
+    def on_alarm(*a):
+        raise TimeoutError()
+    seen = set()
+    old = signal.signal(signal.SIGALRM, on_alarm)
+    try:
+        for u, v in pairs:
+            key = (repr(u.Data), repr(v.Data))
+            if key in seen:
+                continue
+            seen.add(key)
+            res.path_assertions += 1
+            text = f"u={list(u.Data)} v={list(v.Data)}"
+            signal.alarm(5)
+            try:
+                g, a, b = extended_euclidean(u, v)
+                signal.alarm(0)
+            except TimeoutError:
+                _viol(res, f"euclid-poly {text} no termination", "euclid-poly-no-termination",
+                      f"extended_euclidean on the polynomials {text} (lists of (exponent, coefficient)) does not return within 5 s")
+                continue
+            except ArithmeticError as e:
+                signal.alarm(0)
+                if isinstance(e, ZeroDivisionError):
+                    _viol(res, f"euclid-poly {text} raises", "euclid-poly", f"extended_euclidean({text}) raised {e!r}")
+                else:
+                    _viol(res, f"euclid-poly {text} refused", "euclid-poly-refused-over-integers",
+                          f"extended_euclidean({text}) raised {e!r}: no gcd / Bezout coefficients are returned")
+                continue
+            except Exception as e:  # noqa: BLE001
+                signal.alarm(0)
+                _viol(res, f"euclid-poly {text} raises", "euclid-poly", f"extended_euclidean({text}) raised {e!r}")
+                continue
+            try:
+                goal = sym.eq_term(value(g), value(a) * value(u) + value(b) * value(v), "int")
+                verdict, model = q.valid([], goal)
+                if verdict == "sat":
+                    _viol(res, f"euclid-poly {text} bezout", "euclid-poly",
+                          f"extended_euclidean({text}) = (g, a, b) with g != a*u + b*v at X = {sym.model_value(model, xs)}")
+                    continue
+                for nm, w in (("u", u), ("v", v)):
+                    if isinstance(g, Polynomial):
+                        quo, rem = divmod(w, g)
+                        if rem:
+                            _viol(res, f"euclid-poly {text} divides-{nm}", "euclid-poly",
+                                  f"extended_euclidean({text}): g = {list(g.Data)} does not divide {nm} (remainder {rem!r})")
+            except Exception as e:  # noqa: BLE001
+                _viol(res, f"euclid-poly {text} check raises", "euclid-poly", f"checking the result for {text} raised {e!r}")
+    finally:
+        signal.alarm(0)
+        signal.signal(signal.SIGALRM, old)
+    res.paths = 1
+    return H.finish(res, [], q)
+
+
 def check_poly_mapper():
     """the value homomorphism also holds after a mapper has rewritten the coefficients"""
     from pymbolic import evaluate, substitute
@@ -579,7 +661,7 @@ def check_quotient(tier):
 
 
 def items(tier):
-    out = [("ipow", "int"), ("ipow", "mat"), ("euclid",), ("quotient",), ("polymapper",)]
+    out = [("ipow", "int"), ("ipow", "mat"), ("euclid",), ("euclidpoly",), ("quotient",), ("polymapper",)]
     nmax = 12 if tier == "quick" else 32
     for n in range(1, nmax + 1):
         out += [("fft", n, "fft"), ("fft", n, "ifft(fft)")]
@@ -611,6 +693,8 @@ def check_item(item, tier):
         return check_fft(4, "fft", tier, twin=True)
     if k == "poly":
         return check_poly(item[1], tier)
+    if k == "euclidpoly":
+        return check_euclid_poly(tier)
     if k == "polymapper":
         return check_poly_mapper()
     if k == "quotient":
